@@ -362,6 +362,17 @@ fn emit_fn(
                     hits: 0,
                     done: false,
                 };
+                {
+                    use syn::visit::Visit;
+                    let mut sc = rules::SnippetCounter { snippet: rules::norm(sn), count: 0 };
+                    sc.visit_block(&block);
+                    if sc.count != 1 {
+                        die(&format!(
+                            "{}: @insert anchor `{}` matches {} statements (lost anchor)",
+                            selector, sn, sc.count
+                        ));
+                    }
+                }
                 si.visit_block_mut(&mut block);
                 if si.hits != 1 {
                     die(&format!(
@@ -427,7 +438,14 @@ fn emit_fn(
         match anchor {
             Anchor::Begin => block.stmts.insert(0, rules::quote_marker(i)),
             Anchor::End => {
-                if let Some(Stmt::Expr(_, None)) = block.stmts.last() {
+                let unit_fn = matches!(sig.output, syn::ReturnType::Default);
+                if unit_fn {
+                    // the body has type (): a tail expression can be turned into a statement
+                    if let Some(Stmt::Expr(_, semi @ None)) = block.stmts.last_mut() {
+                        *semi = Some(Default::default());
+                    }
+                    block.stmts.push(rules::quote_marker(i));
+                } else if let Some(Stmt::Expr(_, None)) = block.stmts.last() {
                     let n = block.stmts.len();
                     block.stmts.insert(n - 1, rules::quote_marker(i));
                 } else {
